@@ -17,6 +17,7 @@ func init() {
 
 func runC13(c *Ctx) {
 	L := c.L
+	c.checkConfigWriters("container-config")
 	L.Rule("alphabet-wildcard", "an alphabet-specific constant is used only where the controlling alphabet comparisons select its own alphabet")
 	c.checkAlphabetConsts("alphabet-wildcard", c.withHelperDecls("align", "*seqbag", "Deduplicate"))
 	L.Floor("alphabet-wildcard", 2, "ALL_AMINO and ALL_NUCLE in Deduplicate")
